@@ -783,3 +783,25 @@ def reaching_defs(fn, local, block, stmt_idx):
     for d in sorted(inn):
         res.append((d, last[d][1]))
     return res
+
+
+def loop_body_exits(fn, header_bb):
+    """edges (b, succ) that leave the natural loop of an iterator `next()` call at header_bb from the loop BODY,
+    i.e. not through the switch on the `next()` result (iterator exhausted).  Cleanup edges are ignored."""
+    loop = {b for b in fn.after(header_bb) if header_bb in fn.after(b)} | {header_bb}
+    legit = {header_bb}
+    dest = fn.call_at(header_bb).dest if fn.call_at(header_bb) is not None else None
+    for b in loop:
+        t = fn.blocks[b]["term"]
+        if t["t"] == "switch":
+            e = expr_of(fn, t["discr"], depth=4)
+            if e[0] == "discr" and e[1][0] == "call" and e[1][3].bb == header_bb:
+                legit.add(b)
+    out = []
+    for b in sorted(loop):
+        if b in legit:
+            continue
+        for s2 in fn.succ(b):
+            if s2 not in loop and not fn.blocks[s2].get("cleanup"):
+                out.append((b, s2))
+    return out
